@@ -100,10 +100,10 @@ def run(args):
                        "non-trivial = distinct (program, backend, limits)")
     pool = C.Pool(C.build_worker())
     srcs = operator_grid() + misc_programs()
-    fam = Fam.template_programs() + Fam.capture_programs() + Fam.lambda_programs() + Fam.singleton_programs() + \
+    fam = Fam.template_programs() + Fam.capture_programs() + Fam.lambda_programs() + Fam.singleton_programs() + Fam.closure_programs() + \
         Fam.nestings(2, rnd, sample=120) + Fam.random_programs(600 if thorough else 150, C.seed() + 7)
     for p in fam:
-        srcs.append(("family " + p["feats"]["family"], P.render(p)[0]))
+        srcs.append(("family " + p["feats"]["family"] + (" " + p["feats"]["variant"] if "variant" in p["feats"] else ""), P.render(p)[0]))
     limits = LIMITS if thorough else [LIMITS[1], LIMITS[3]]
     reqs, meta = [], []
     for pi, (label, src) in enumerate(srcs):
